@@ -1,4 +1,5 @@
 import BadgerProofs.Lemmas.CompactStatus
+import BadgerProofs.Props.C20
 /-!
 # C14 / C12 — concurrently running compactions are kept apart by `compactStatus`
 
@@ -527,5 +528,73 @@ theorem C14_cstatus_nonvacuous :
   refine ⟨_, r3, ?_⟩
   exact C14_cstatus_exclusive r3 (a := ⟨exA, false⟩) (b := ⟨exB, false⟩) (by simp) (by simp) (by decide) rfl rfl
     (l := 2) (by simp [regAt, rangesAt, exA]) (by simp [regAt, rangesAt, exB])
+
+/-! ## the ranges the callers register: `getKeyRange` -/
+
+/-- `getKeyRange` for given extreme keys (compaction.go:98-123): all versions of the smallest and of
+the biggest user key: `[parseKey(smallest)@MaxUint64, parseKey(biggest)@0]`. -/
+def getKeyRangeOf (smallest biggest : Bytes) : KeyRange :=
+  { left := keyWithTs (parseKey smallest) maxU64, right := keyWithTs (parseKey biggest) 0 }
+
+theorem keyWithTs_ne_nil (k : Bytes) (ts : Nat) : (keyWithTs k ts).isEmpty = false := by
+  have := keyWithTs_length k ts
+  cases h : keyWithTs k ts with
+  | nil => rw [h] at this; simp at this
+  | cons _ _ => rfl
+
+/-- What `getKeyRange` returns is `Proper` (the hypothesis of `Reach.accept`), for any tables whose
+smallest key is not above their biggest key. -/
+theorem C14_getKeyRange_proper (a b : Bytes) (s t : Nat) (hs : s ≤ maxU64) (ht : t ≤ maxU64)
+    (h : compareKeys (keyWithTs a s) (keyWithTs b t) ≠ .gt) :
+    Proper (getKeyRangeOf (keyWithTs a s) (keyWithTs b t)) := by
+  unfold getKeyRangeOf
+  rw [C20_parseKey_keyWithTs, C20_parseKey_keyWithTs]
+  refine ⟨by simp [KeyRange.isEmpty, keyWithTs_ne_nil], rfl, ?_⟩
+  rw [C20_compareKeys_order a b s t hs ht] at h
+  rw [C20_compareKeys_order a b maxU64 0 (Nat.le_refl _) (Nat.zero_le _)]
+  cases hc : cmpBytes a b with
+  | lt => simp
+  | gt => simp [hc] at h
+  | eq =>
+    simp only
+    rw [Nat.compare_eq_lt.mpr (by unfold maxU64; omega)]; simp
+
+/-- Every key of the tables (between their smallest and their biggest key) lies `Within` the range
+`getKeyRange` registers for them. -/
+theorem C14_getKeyRange_within (a b c : Bytes) (s t u : Nat) (hs : s ≤ maxU64) (ht : t ≤ maxU64) (hu : u ≤ maxU64)
+    (h1 : compareKeys (keyWithTs a s) (keyWithTs c u) ≠ .gt)
+    (h2 : compareKeys (keyWithTs c u) (keyWithTs b t) ≠ .gt) :
+    Within (getKeyRangeOf (keyWithTs a s) (keyWithTs b t)) (keyWithTs c u) := by
+  unfold getKeyRangeOf Within
+  rw [C20_parseKey_keyWithTs, C20_parseKey_keyWithTs]
+  simp only
+  rw [C20_compareKeys_order a c s u hs hu] at h1
+  rw [C20_compareKeys_order c b u t hu ht] at h2
+  rw [C20_compareKeys_order c a u maxU64 hu (Nat.le_refl _), C20_compareKeys_order b c 0 u (Nat.zero_le _) hu]
+  constructor
+  · have hsw := cmpBytes_swap a c
+    cases hc : cmpBytes c a with
+    | gt => simp
+    | lt =>
+      have hac : cmpBytes a c = .gt := by
+        rw [hc] at hsw
+        cases hx : cmpBytes a c <;> rw [hx] at hsw <;> simp [Ordering.swap] at hsw ⊢
+      simp [hac] at h1
+    | eq =>
+      simp only
+      intro hlt
+      rw [Nat.compare_eq_lt] at hlt; omega
+  · have hsw := cmpBytes_swap c b
+    cases hc : cmpBytes b c with
+    | gt => simp
+    | lt =>
+      have hcb : cmpBytes c b = .gt := by
+        rw [hc] at hsw
+        cases hx : cmpBytes c b <;> rw [hx] at hsw <;> simp [Ordering.swap] at hsw ⊢
+      simp [hcb] at h2
+    | eq =>
+      simp only
+      intro hlt
+      rw [Nat.compare_eq_lt] at hlt; omega
 
 end Badger
